@@ -405,15 +405,31 @@ func (e *Explorer) Assume(c *Term) {
 		}
 		return
 	}
-	k := e.Decide(2, func(k int) *Term {
-		if k == 0 {
-			return c
+	idx := len(e.events)
+	if idx < len(e.script) {
+		ev := e.script[idx]
+		if ev.kind != 's' {
+			panic("engine: non-deterministic re-execution (assume)")
 		}
-		return e.P.Not(c)
-	}, "verifAssume")
-	if k == 1 {
-		panic(&abort{abDrop, "assumption false"})
+		e.events = append(e.events, ev)
+		if !ev.res {
+			panic(&abort{abDrop, "assumption false"})
+		}
+		if !ev.forced {
+			e.pc = append(e.pc, c)
+		}
+		return
 	}
+	res, _ := e.queryInc(c, false, nil)
+	switch res {
+	case Unsat:
+		e.events = append(e.events, event{kind: 's', exact: true, res: false})
+		panic(&abort{abDrop, "assumption false"})
+	case Unknown:
+		e.incFlag = "solver returned unknown for the feasibility of an assumption"
+	}
+	e.events = append(e.events, event{kind: 's', exact: true, res: true})
+	e.pc = append(e.pc, c)
 }
 
 // Entails reports whether the path condition implies c (unknown counts as "no").
